@@ -2815,6 +2815,12 @@ func (il *inliner) pureFresh(fd *ast.FuncDecl, depth int) bool {
 				if fn, _ := info.Uses[cid].(*types.Func); fn != nil && il.fresh[fn] != nil && il.fresh[fn] != fd && il.pureFresh(il.fresh[fn], depth+1) {
 					return true
 				}
+				// library functions that only compute
+				if fn, _ := info.Uses[cid].(*types.Func); fn != nil && fn.Pkg() != nil && pureLibFunc[fn.Pkg().Path()+"."+fn.Name()] {
+					if sig, _ := fn.Type().(*types.Signature); sig != nil && sig.Recv() == nil {
+						return true
+					}
+				}
 				// the read-only methods of a context
 				if fn, _ := info.Uses[cid].(*types.Func); fn != nil && fn.Pkg() != nil && fn.Pkg().Path() == "context" {
 					switch fn.Name() {
@@ -2930,4 +2936,15 @@ func (il *inliner) hoistNestedPure(stmt ast.Stmt, calleeOf func(ast.Expr) (*type
 		return "{ " + pre.String() + body + " }", true
 	}
 	return pre.String() + body, true
+}
+
+// pureLibFunc: standard-library functions without effects (used to recognise new helpers that
+// only compute a value).
+var pureLibFunc = map[string]bool{
+	"errors.Is": true, "os.IsNotExist": true, "os.IsExist": true, "os.IsPermission": true, "os.IsTimeout": true,
+	"strings.HasPrefix": true, "strings.HasSuffix": true, "strings.Contains": true, "strings.TrimSpace": true,
+	"strings.ToLower": true, "strings.ToUpper": true, "strings.TrimPrefix": true, "strings.TrimSuffix": true,
+	"strings.EqualFold": true, "strings.Split": true, "strings.Join": true, "strings.Index": true, "strings.LastIndex": true,
+	"fmt.Sprintf": true, "fmt.Sprint": true, "fmt.Errorf": true, "errors.New": true,
+	"path/filepath.Join": true, "path/filepath.Base": true, "path/filepath.Dir": true, "path.Join": true, "path.Base": true,
 }
